@@ -84,6 +84,8 @@ def topo_order(deps, dependents, mode="dfs", chooser=None):
 
 def fingerprint(v):
     """Stable digest of a task value (arrays by bytes+shape+dtype, others by repr/pickle)."""
+    if isinstance(v, np.generic):
+        v = np.asarray(v)  # a NumPy scalar and a 0-d array of the same dtype/bytes are the same block value
     if isinstance(v, np.ndarray):
         if np.ma.isMaskedArray(v):
             return ("ma", fingerprint(np.ma.getdata(v)), fingerprint(np.ma.getmaskarray(v)))
